@@ -26,6 +26,42 @@ namespace Sux
 /-- `count_ones` of a `W`-bit word -/
 def popcount (W w : Nat) : Nat := (List.range W).countP (fun j => w.testBit j)
 
+/-- loop form of `popcount` (no list is allocated, stops at the last set bit); compiled code uses it
+through `popcount_eq_impl` (`@[csimp]`): nothing changes for the proofs, which see `popcount` -/
+def popcountLoop : Nat → Nat → Nat → Nat
+  | 0, _, acc => acc
+  | fuel + 1, w, acc => if w = 0 then acc else popcountLoop fuel (w / 2) (acc + w % 2)
+
+theorem popcountLoop_eq (fuel w acc : Nat) :
+    popcountLoop fuel w acc = acc + (List.range fuel).countP (fun j => w.testBit j) := by
+  induction fuel generalizing w acc with
+  | zero => simp [popcountLoop]
+  | succ n ih =>
+    unfold popcountLoop
+    by_cases hw : w = 0
+    · subst hw
+      rw [if_pos rfl]
+      have : (List.range (n + 1)).countP (fun j => (0 : Nat).testBit j) = 0 := by
+        rw [List.countP_eq_zero]; intro a _; simp
+      omega
+    · rw [if_neg hw, ih, List.range_succ_eq_map, List.countP_cons, List.countP_map]
+      have h1 : ((fun j => w.testBit j) ∘ Nat.succ) = fun j => (w / 2).testBit j := by
+        funext j
+        show w.testBit (j + 1) = (w / 2).testBit j
+        rw [Nat.testBit_succ]
+      rw [h1]
+      have h2 : w % 2 = if w.testBit 0 = true then 1 else 0 := by
+        rw [Nat.testBit_zero]
+        rcases Nat.mod_two_eq_zero_or_one w with h | h <;> simp [h]
+      rw [h2]; omega
+
+def popcountImpl (W w : Nat) : Nat := popcountLoop W w 0
+
+@[csimp] theorem popcount_eq_impl : @popcount = @popcountImpl := by
+  funext W w
+  unfold popcountImpl popcount
+  rw [popcountLoop_eq, Nat.zero_add]
+
 /-- every word of the store fits in `W` bits -/
 def WordsOK (W : Nat) (ws : Array Nat) : Prop := ∀ i (h : i < ws.size), ws[i] < 2 ^ W
 
